@@ -34,6 +34,7 @@ THEOREMS = [
     "comparableM_eq", "iface_eq", "iface_eq_counterexample_uninitialised", "repaired_comparable_on_demand",
     "methodvalue_full", "methodvalue_binds_copy", "clone_iff", "clone_from_operand_type_is_wrong",
     "repaired_methodvalue_through_pointer", "forwarder_receiver_has_method", "repaired_forwarder_counterexample",
+    "valEqual_refl_iff", "ifaceEq_refl_iff", "ifaceEq_refl_boxed", "ifaceEq_identity_irrelevant", "identity_fast_path_is_wrong",
 ]
 
 
@@ -438,7 +439,8 @@ def gen_eq(rng, stale):
     sl = F.op("S:" + BASIC["int"])
     mp = F.op("M:%s:%s" % (BASIC["string"], BASIC["int"]))
     pi = F.op("P:" + BASIC["int"])
-    comps = [(BASIC["int"], "num"), (BASIC["string"], "str"), (BASIC["int64"], "pair"), (pi, "ref"), (BASIC["empty"], "iface")]
+    comps = [(BASIC["int"], "num"), (BASIC["string"], "str"), (BASIC["int64"], "pair"), (pi, "ref"), (BASIC["empty"], "iface"),
+             (BASIC["float64"], "flt"), (BASIC["complex128"], "cplx")]
     uncomp = [(sl, "ref"), (mp, "ref")]
     n = rng.randrange(2, 5)
     decls = []
@@ -494,10 +496,18 @@ def gen_eq(rng, stale):
             return "p%d_%d" % (rng.choice([0, 1]), rng.choice([0, 5, variant]))
         if sh == "ref":
             return "r%d" % rng.choice([0, 1])
+        if sh == "flt":
+            return rng.choice(["fN", "f0", "f1", "f%d" % variant])
+        if sh == "cplx":
+            return "c%s_%s" % (rng.choice(["N", "0", "1"]), rng.choice(["N", "0", "2"]))
         if sh == "iface":
             r = rng.random()
-            if r < 0.3:
+            if r < 0.2:
                 return "v[n]"
+            if r < 0.3:      # ONE boxed value shared by both operands when the same text occurs twice
+                return "w%d[%s~%s]" % (rng.randrange(2), BASIC["float64"], rng.choice(["fN", "f1"]))
+            if r < 0.35:
+                return "w%d[%s~r0]" % (rng.randrange(2), sl)
             if r < 0.6:
                 return "v[%s~i%d]" % (BASIC["int"], rng.choice([0, 1]))
             if r < 0.75:
@@ -519,6 +529,17 @@ def gen_eq(rng, stale):
     for _ in range(2):
         sv = struct_val(decls[0], 0)
         F.op("E:%s~%s:%s~%s" % (decls[0]["h"], sv, twin["h"], sv))
+    # the SAME boxed object on both sides (`x == x`) for every dynamic kind, next to two separate boxings of the same value
+    same = [(BASIC["float64"], "fN"), (BASIC["float64"], "f1"), (BASIC["complex128"], "cN_0"), (BASIC["complex128"], "c1_N"),
+            (BASIC["complex128"], "c1_2"), (BASIC["int"], "i7"), (BASIC["string"], "s61"), (BASIC["int64"], "p0_5"), (pi, "r0"),
+            (sl, "r0"), (mp, "r1")]
+    for d in decls:
+        same.append((d["h"], struct_val(d, rng.randrange(3))))
+    rng.shuffle(same)
+    for t, pv in same[:rng.randrange(8, len(same) + 1)]:
+        F.op("E:%s~%s:=" % (t, pv))
+        F.op("E:%s~%s:%s~%s" % (t, pv, t, pv))
+    F.op("E:n:=")
     for _ in range(rng.randrange(6, 14)):
         d = rng.choice(decls)
         v1 = "%s~%s" % (d["h"], struct_val(d, rng.randrange(3)))
@@ -1566,6 +1587,82 @@ def run_mv_programs(chk, tier):
     chk.extra["methodvalue_programs_run"] = len(jobs)
 
 
+# ----------------------------------------------------------------------------------------------
+# interface equality of a boxed value with ITSELF (tie b4): NaN-bearing and uncomparable dynamic values
+# ----------------------------------------------------------------------------------------------
+
+def gen_ifeq_program(rng):
+    """`x == x`, `y := x; x == y`, the same slice / map element read twice, a struct holding the interface compared with
+    itself and with its copy, `switch x { case x: }`, next to two separate boxings of the same value — for dynamic values that
+    contain a NaN (Go: false) or are of an uncomparable type (Go: run-time panic) and for ordinary ones. Every line must
+    equal native Go."""
+    src = ["package main", "", "var zero float64", "func nan() float64 { return zero / zero }",
+           "type SN struct{ f float64; k int }", "type SS struct{ s []int; k int }", "type SI struct{ i interface{} }",
+           "type AN [2]float64", "type N float64", "var gp = &zero",
+           "func eq(a, b interface{}) (r string) { defer func() { if recover() != nil { r = \"panic\" } }(); if a == b { return \"true\" }; return \"false\" }",
+           "func sw(x interface{}) (r string) { defer func() { if recover() != nil { r = \"panic\" } }(); switch x { case x: return \"hit\" }; return \"miss\" }",
+           "func self(x interface{}) (r string) { defer func() { if recover() != nil { r = \"panic\" } }(); if x == x { return \"true\" }; return \"false\" }",
+           ]
+    vals = ["nan()", "N(nan())", "complex(nan(), 0)", "complex(1, nan())", "SN{nan(), 1}", "SN{1, 1}", "AN{nan(), 0}", "AN{1, 2}",
+            "[]int{1}", "map[int]int{}", "func() {}", "SS{nil, 1}", "SI{nan()}", "SI{[]int{}}", "SI{1}", "SI{nil}", "[1]SI{{nan()}}",
+            "1", "\"a\"", "gp", "nil", "1.5", "complex(1, 2)", "[2]interface{}{1, nan()}", "struct{ a, b interface{} }{1, []int{}}",
+            "struct{ a, b interface{} }{1, 2}", "&SN{nan(), 1}"]
+    rng.shuffle(vals)
+    vals = vals[:rng.randrange(14, len(vals) + 1)]
+    main = ["func main() {"]
+    for i, v in enumerate(vals):
+        main.append("\t{")
+        main.append("\t\tvar x interface{} = %s" % v)
+        forms = [("same", "eq(x, x)"), ("copy", "func() string { y := x; return eq(x, y) }()"),
+                 ("slice", "func() string { s := []interface{}{0, x}; return eq(s[1], s[1]) }()"),
+                 ("map", "func() string { m := map[string]interface{}{\"k\": x}; return eq(m[\"k\"], m[\"k\"]) }()"),
+                 ("struct", "func() string { t := SI{x}; return eq(t, t) }()"),
+                 ("structcopy", "func() string { t := SI{x}; u := t; return eq(t, u) }()"),
+                 ("array", "func() string { t := [2]interface{}{x, 1}; u := t; return eq(t, u) }()"),
+                 ("switch", "sw(x)"), ("selfexpr", "self(x)"),
+                 ("two", "eq(%s, %s)" % (v if v != "nil" else "interface{}(nil)", v if v != "nil" else "interface{}(nil)")),
+                 ("chan", "func() string { c := make(chan interface{}, 2); c <- x; c <- x; return eq(<-c, <-c) }()")]
+        rng.shuffle(forms)
+        for name, ex in forms[:rng.randrange(6, len(forms) + 1)]:
+            main.append("\t\tprintln(\"v%d:%s\", %s)" % (i, name, ex))
+        main.append("\t}")
+    main.append("}")
+    return "\n".join(src + main) + "\n"
+
+
+def run_ifeq_programs(chk, tier):
+    from . import progs
+    q = tier != "thorough"
+    n = 6 if q else 60
+    jobs, srcs = [], []
+    for i in range(n):
+        sc = gen_ifeq_program(chk.rng)
+        jobs.append({"id": "ie%d" % i, "files": {"main.go": sc}, "variants": ["plain"] if (q or i % 4) else ["plain", "minify"],
+                     "native": True, "timeout": 120})
+        srcs.append(sc)
+    res = progs.run_jobs(jobs, par=8)
+    for job, r, sc in zip(jobs, res, srcs):
+        nat = progs.observe_native(r["runs"]["native"])
+        if nat[1] != "exit0":
+            raise RuntimeError("generated interface-equality program does not build/run natively: %s\n%s" % (nat[1], sc[:3000]))
+        for v in job["variants"]:
+            js = progs.observe_js(r["runs"][v])
+            same = js == nat
+            chk.add_case("programs-ifaceeq", job["id"] + v + sc, nontrivial=True, kindkey="program-ifaceeq:%s" % ("same" if same else "differs"),
+                         sample={"tie": "programs-ifaceeq", "op": job["id"], "impl": "\n".join(js[0][:5]), "model": "(native Go) " + "\n".join(nat[0][:5])})
+            chk.evaluations += len(nat[0])
+            for l in nat[0]:
+                chk.count("ifaceeq-self-line:" + l.split(" ")[-1])
+            if not same:
+                if js[1] == nat[1] and len(js[0]) == len(nat[0]):
+                    desc = "; ".join("js[%s] go[%s]" % d for d in [(a, b) for a, b in zip(js[0], nat[0]) if a != b][:6])
+                else:
+                    desc = "ending js=%s native=%s lines js=%d native=%d" % (js[1], nat[1], len(js[0]), len(nat[0]))
+                chk.add_mismatch("programs-ifaceeq", json.dumps({"id": job["id"], "variant": v, "source": sc}), impl=desc,
+                                 spec="native Go output", signature=None)
+    chk.extra["ifaceeq_programs_run"] = len(jobs)
+
+
 def gen_all_families(rng, tier):
     q = tier != "thorough"
     fams = []
@@ -1613,6 +1710,7 @@ def run(tier, seed):
     run_programs(chk, tier)
     run_mp_programs(chk, tier)
     run_mv_programs(chk, tier)
+    run_ifeq_programs(chk, tier)
     return chk.finish()
 
 
